@@ -184,6 +184,12 @@ CLAIMED = {
             'asserted with the polarity it has; getConflict, getReason, getDeduction and assertLits are evaluated by the abstract evaluator on symbolic literals for all polarity combinations '
             'and compared with this convention.',
             'static analysis: abstract evaluation of the four conversion functions over symbolic literals (all polarity combinations) compared with the boundary convention', ''),
+    'C30': ('other',
+            'Static, one of the three mechanisms the property names: the anti-cycling switch of the simplex (termination of CDCL with restarts and of the lookahead search needs ranking '
+            'arguments and is not decided). In Simplex::checkSimplex every iteration of the pivoting loop increments the repeat counter and nothing lowers it; the Bland flag is only ever set '
+            'inside the loop, under a comparison of the counter with a loop-invariant bound; with the flag set both the leaving and the entering variable come from the Bland selectors; the '
+            'loop is left only by return; both selectors keep the candidate with the smallest variable id. With Bland\'s theorem this makes every simplex call terminate.',
+            'static analysis: path walk of one loop iteration (monotone counter and flag, selectors per flag value) + minimum-selection shape rule', 'Bland\'s theorem is assumed, not proved'),
     'C15': ('other',
             'Static: (1) UB-obligation engine - every compiler-inserted sanitizer obligation (signed overflow, narrowing, sign change, float cast) in FastRational.h/.cc is '
             'either deleted by LLVM -O2 range analysis or listed in a table with a written justification and the guards it relies on (guards must still be present); the IR '
@@ -205,7 +211,6 @@ CLAIMED = {
 }
 
 NOT_APPLICABLE = {
-    'C30': 'termination needs ranking arguments for CDCL with restarts, Bland pivoting and lookahead; polling a stop flag is not termination',
 }
 
 PENDING = 'rule module not built yet in this session (planned in DESIGN.md section 3); not claimed until its check exists and is quiet on the unchanged tree'
